@@ -39,6 +39,30 @@ type env struct {
 	fw   *writer.FileWriter
 	path string
 	sb   *core.Superblock
+	// logSeen: entries of the disk's write log already checked by checkWrites
+	logSeen int
+}
+
+// checkWrites is a cross-invariant evaluated after every operation: every write
+// of the structure under test lies inside space the allocator has handed out
+// (the scratch file starts at offset 64; nothing may be written below it or
+// beyond the allocator's end of file).
+func (e *env) checkWrites() {
+	if e.sim == nil || e.fw == nil {
+		return
+	}
+	eof := int64(e.fw.Allocator().EndOfFile())
+	for ; e.logSeen < len(e.sim.Log); e.logSeen++ {
+		le := e.sim.Log[e.logSeen]
+		if le.Op != "write" || le.Len == 0 {
+			continue
+		}
+		if le.Off < 64 || le.Off+int64(le.Len) > eof {
+			e.violate("write-outside-allocated-space", "structure-write", fmt.Sprintf("write of %d bytes at offset %d; allocated space is [64,%d)", le.Len, le.Off, eof))
+			e.logSeen = len(e.sim.Log)
+			return
+		}
+	}
 }
 
 func (e *env) violate(oracle, class, detail string) {
@@ -48,6 +72,7 @@ func (e *env) violate(oracle, class, detail string) {
 func newEnv(prop, dir string) (*env, func()) {
 	e := &env{res: &harness.RunResult{Probes: map[string]int{}, Fired: map[string]int{}}, prop: prop, sb: superblock()}
 	e.sim = disk.NewSim()
+	e.sim.KeepLog = true
 	disk.Install(e.sim)
 	pool := &disk.Pool{Mode: "plain"}
 	disk.InstallPool(pool)
@@ -283,6 +308,7 @@ func execC14(t *trace.Trace, dir string) *harness.RunResult {
 	}
 	for i := range t.Ops {
 		op := &t.Ops[i]
+		e.checkWrites() // writes of the previous operation
 		e.op = i
 		noteName(op.Key)
 		var err error
@@ -482,6 +508,7 @@ func execC14(t *trace.Trace, dir string) *harness.RunResult {
 		res.States = append(res.States, uint64(len(mod))<<32|uint64(hashOf(fmt.Sprint(len(bt.GetRecords()), i%7))))
 	}
 finish:
+	e.checkWrites()
 	res.Ops = len(t.Ops)
 	res.OKOps = e.op
 	res.NonTrivial = (maxFill*2 >= capacity || deleted) && cycles > 0
@@ -515,6 +542,12 @@ func genC15(r *rng.R, tier string, steer bool, idx int) *trace.Trace {
 	}
 	t.Config.BlockSize = block
 	maxObj := rng.Pick(r, []int{0, 0, 64, 200, block / 2, block})
+	if r.Chance(0.02) {
+		// a direct block larger than the largest managed object: an object of
+		// exactly the maximum managed size exists (the id's length field at its limit)
+		block, maxObj = 131072, 65536
+		t.Config.BlockSize = block
+	}
 	t.Config.MaxObj = maxObj
 	lim := block
 	if maxObj > 0 && maxObj < lim {
@@ -655,9 +688,20 @@ func execC15(t *trace.Trace, dir string) *harness.RunResult {
 	var heapAddr uint64
 	loaded := false
 	cycles, maxFillPct, grew := 0, 0, false
+	// stored: bytes handed to successful inserts so far (this heap never reuses
+	// space, so it bounds every object's start offset). The library always
+	// builds heap ids with a 16-bit offset field, whatever the block size: once an
+	// object starts at or beyond 64 KiB (possible only with the 128 KiB block of
+	// a few runs, which the library's own callers never use) ids wrap around.
+	// That is a defect of its own (known finding) and gets its own context.
+	stored := 0
+	wideOffsets := false
 	ctx := func() string {
 		if grew {
 			return ":after-growth"
+		}
+		if wideOffsets {
+			return ":offset-beyond-16-bit"
 		}
 		return ""
 	}
@@ -702,6 +746,7 @@ func execC15(t *trace.Trace, dir string) *harness.RunResult {
 	prevFree, prevManaged := fh.Header.FreeSpace, fh.Header.ManagedSpaceSize
 	for i := range t.Ops {
 		op := &t.Ops[i]
+		e.checkWrites() // writes of the previous operation
 		e.op = i
 		var err error
 		var pan string
@@ -727,6 +772,10 @@ func execC15(t *trace.Trace, dir string) *harness.RunResult {
 				// a refused insert must change nothing: verified by checkAll below
 			} else {
 				live[op.ID] = &obj{id: append([]byte(nil), id...), data: data}
+				if stored >= 65536 {
+					wideOffsets = true
+				}
+				stored += len(data)
 			}
 		case "fh_get":
 			// covered by checkAll
@@ -865,6 +914,7 @@ func execC15(t *trace.Trace, dir string) *harness.RunResult {
 		res.States = append(res.States, uint64(len(live))<<40|liveBytes()<<8|uint64(i%5))
 	}
 finish:
+	e.checkWrites()
 	res.Ops = len(t.Ops)
 	res.OKOps = e.op
 	res.NonTrivial = (maxFillPct >= 80 || grew) && cycles > 0
